@@ -22,6 +22,11 @@
    flag checked; constructor stream secfxp(k +- d) (d around 2^-(f+1), 2^-f, 1e-9 k, ...) on six
    types: flag => stored value whole, stored = round(v 2^f), following products right; the
    constructor's inference source must be the recognised (int -> True, float -> is_integer()) form.
+   NumPy sites: the np_* rules are in the table (np_left_shift tied to the proved rule); a NumPy
+   stream (subprocess under /verif/.venv-np, m=1 and m=3) runs shifts by arrays of mixed amounts,
+   elementwise ops, update/concatenate/stack/fromlist/tolist/sum/... on whole/fractional/mixed arrays,
+   each followed by a multiplication by a fraction.  random_bits(secfxp, n, signed) is checked to be
+   exactly 0/1 resp. +-1, marked integral, at m=1 and m=3 with PRSS on/off.
 4. Random fixed-point programs over scalars and MIXED-integrality lists through the
    flag-setting operations: after each result, flag true => whole number (value opened), value
    against an exact oracle; flags and values of the modelled operations are compared with the
@@ -1116,6 +1121,262 @@ def constructor_stream(ctx, Sim):
     return nviol
 
 
+# --------------------------------------------------------------------------------------------
+# NumPy part: runs the simulator under /verif/.venv-np in a subprocess (this check runs under /venv)
+
+NP_SCRIPT = r'''
+import sys, json, os
+repo, hdir, job = sys.argv[1], sys.argv[2], json.loads(sys.argv[3])
+os.environ['MPYC_REPO'] = repo
+sys.path.insert(0, hdir)
+sys.path.insert(0, repo)
+import numpy as np
+from lib.sim import Sim
+
+
+def ints(z):
+    # signed scaled integers of a raw output (field element, field array or list thereof)
+    if isinstance(z, list):
+        return [v for a in z for v in ints(a)]
+    v = z.value
+    p = (type(z).field.modulus if hasattr(type(z), 'field') and hasattr(z, 'shape') else type(z).modulus)
+    flat = [int(x) for x in np.asarray(v, dtype=object).flatten().tolist()]
+    return [x - p if x > p // 2 else x for x in flat]
+
+
+def make_c02(l, f, A, B, C):
+    async def prog(mpc, mods, pid):
+        secfxp = mpc.SecFxp(l, f)
+        U = 2 ** f
+        def arr(xs):
+            return mpc.input(secfxp.array(np.array([x / U for x in xs])), senders=0)
+        out = []
+        async def emit(op, y):
+            out.append([op, ints(await mpc.output(y, raw=True))])
+        try:
+            a, b = arr(A), arr(B)
+            ai = arr([U * (x // U) for x in A])               # whole numbers: skip-truncation path
+            c = np.array(C)
+            await emit('add', a + b)
+            await emit('sub', a - b)
+            await emit('mul', a * b)
+            await emit('mul_int_arr', ai * b)
+            await emit('mul_float', a * c)
+            await emit('matmul', a.reshape(2, 3) @ b.reshape(3, 2))
+            await emit('outer', np.outer(a[:3], b[:3]))
+            await emit('lt', a < b)
+            await emit('eq', a == a)
+            await emit('trunc', mpc.np_trunc(a, f=f // 2))
+        except Exception as exc:
+            out.append(['EXC', repr(exc)[:300]])
+        return out
+    return prog
+
+
+def make_c03(l, f, shared):
+    async def prog(mpc, mods, pid):
+        secfxp = mpc.SecFxp(l, f)
+        U = 2 ** f
+        FR = 0.5 + 2.0 ** -f
+        def arr(xs, integral=None):
+            a = secfxp.array(np.array(xs, dtype=float))
+            return mpc.input(a, senders=0) if shared else a
+        def sc(x):
+            a = secfxp(x)
+            return mpc.input(a, senders=0) if shared else a
+        out = []
+        async def emit(op, y, expect=None):
+            # value, mark, and the operation that relies on the mark: multiplication by a fraction
+            try:
+                if isinstance(y, list):
+                    flags = [bool(a.integral) for a in y]
+                    vals = ints(await mpc.output(y, raw=True))
+                    prods = ints(await mpc.output([a * sc(FR) for a in y], raw=True))
+                    for fl, v, pv in zip(flags, vals, prods):
+                        out.append([op, fl, [v], [pv], None])
+                    return
+                flag = bool(y.integral)
+                vals = ints(await mpc.output(y, raw=True))
+                if hasattr(y, 'shape'):
+                    w = arr(np.full(y.shape, FR))
+                else:
+                    w = sc(FR)
+                prods = ints(await mpc.output(y * w, raw=True))
+                out.append([op, flag, vals, prods, expect])
+            except Exception as exc:
+                out.append([op, 'EXC', repr(exc)[:300], None, None])
+        try:
+            fr = [0.25, 0.5, 1.5]
+            wh = [2.0, -1.0, 3.0]
+            af, ai = arr(fr), arr(wh)
+            for name, a, av in (('frac', af, fr), ('whole', ai, wh)):
+                for sh in ([f, 1, 0], [0, f, f + 1], [f, f, f + 1], [1, 1, 2]):
+                    await emit('left_shift %s by %s' % (name, sh), a << np.array(sh), [int(round(x * U)) * 2 ** k for x, k in zip(av, sh)])
+                    await emit('np.left_shift %s by %s' % (name, sh), np.left_shift(a, np.array(sh)), [int(round(x * U)) * 2 ** k for x, k in zip(av, sh)])
+                for k in (0, 1, f, f + 1):
+                    await emit('left_shift %s by scalar %d' % (name, k), a << k, [int(round(x * U)) * 2 ** k for x in av])
+            S = lambda xs: [int(round(x * U)) for x in xs]
+            await emit('add whole+frac', ai + af, S([x + y for x, y in zip(wh, fr)]))
+            await emit('add whole+whole', ai + ai, S([2 * x for x in wh]))
+            await emit('sub whole-frac', ai - af, S([x - y for x, y in zip(wh, fr)]))
+            await emit('neg frac', -af, S([-x for x in fr]))
+            await emit('neg whole', -ai, S([-x for x in wh]))
+            await emit('mul whole*frac', ai * af, S([x * y for x, y in zip(wh, fr)]))
+            await emit('mul whole*whole', ai * ai, S([x * x for x in wh]))
+            await emit('add whole+int', ai + 2, S([x + 2 for x in wh]))
+            await emit('mul frac*int', af * 3, S([3 * x for x in fr]))
+            await emit('mul whole*float2.0', ai * 2.0, S([2 * x for x in wh]))
+            await emit('reshape', np.reshape(af, (3, 1)), S(fr))
+            await emit('getitem frac', af[1], S(fr[1:2]))
+            await emit('getitem whole', ai[1], S(wh[1:2]))
+            await emit('getitem slice', af[1:], S(fr[1:]))
+            await emit('update whole<-frac', mpc.np_update(arr(wh), 0, sc(0.5)), S([0.5] + wh[1:]))
+            await emit('update whole<-whole', mpc.np_update(arr(wh), 0, sc(5)), S([5.0] + wh[1:]))
+            await emit('concatenate whole,frac', np.concatenate((ai, af)), S(wh + fr))
+            await emit('concatenate whole,whole', np.concatenate((ai, ai)), S(wh + wh))
+            await emit('stack whole,frac', np.stack((ai, af)), S(wh + fr))
+            await emit('hstack frac,whole', np.hstack((af, ai)), S(fr + wh))
+            await emit('vstack whole,frac', np.vstack((ai, af)), S(wh + fr))
+            await emit('fromlist mixed', mpc.np_fromlist([sc(2), sc(0.5)]), S([2, 0.5]))
+            await emit('fromlist whole', mpc.np_fromlist([sc(2), sc(3)]), S([2, 3]))
+            await emit('tolist frac', mpc.np_tolist(af))
+            await emit('tolist whole', mpc.np_tolist(ai))
+            await emit('sum whole', np.sum(ai), S([sum(wh)]))
+            await emit('sum frac', np.sum(af), S([sum(fr)]))
+            await emit('cumsum whole', np.cumsum(ai), S([2.0, 1.0, 4.0]))
+            await emit('flip frac', np.flip(af), S(fr[::-1]))
+            await emit('roll whole', np.roll(ai, 1), S([3.0, 2.0, -1.0]))
+            await emit('transpose', np.transpose(np.reshape(af, (1, 3))), S(fr))
+            await emit('sgn frac', mpc.np_sgn(af - 1), S([-1, -1, 1]))
+            await emit('lt frac', af < ai, S([1, 0, 1]))
+            await emit('matmul whole@frac', np.reshape(ai, (1, 3)) @ np.reshape(af, (3, 1)), S([sum(x * y for x, y in zip(wh, fr))]))
+            await emit('outer whole,frac', np.outer(ai[:2], af[:2]), S([x * y for x in wh[:2] for y in fr[:2]]))
+        except Exception as exc:
+            out.append(['stream', 'EXC', repr(exc)[:300], None, None])
+        return out
+    return prog
+
+
+res = []
+for it in job['items']:
+    m, t, noprss, l, f = it['cfg']
+    sim = Sim(m=m, t=t, no_prss=noprss, seed=job.get('seed', 0))
+    try:
+        sim.start()
+        if job['kind'] == 'c02':
+            prog = make_c02(l, f, it['A'], it['B'], it['C'])
+        else:
+            prog = make_c03(l, f, m > 1)
+        r = sim.run(prog, idle_limit=6000, spins=(300 if m == 1 else 1))
+    finally:
+        try:
+            sim.loop.set_exception_handler(lambda loop, context: None)
+        except Exception:
+            pass
+        sim.close()
+    res.append({'cfg': it['cfg'], 'parties': [x if isinstance(x, list) else str(x)[:200] for x in r]})
+print('RESULT ' + json.dumps(res))
+'''
+
+
+def run_np_job(job, timeout=400):
+    "Run NP_SCRIPT under the NumPy interpreter; returns (list of results | None, problem text | None)."
+    import subprocess
+    from lib.core import PYNP, REPO
+    if not os.path.exists(PYNP):
+        return None, 'no NumPy interpreter at %s' % PYNP
+    hdir = os.path.dirname(os.path.dirname(os.path.abspath(__file__)))
+    env = dict(os.environ)
+    env['PYTHONHASHSEED'] = '0'
+    env.pop('PYTHONPATH', None)
+    try:
+        p = subprocess.run([PYNP, '-c', NP_SCRIPT, REPO, hdir, json.dumps(job)], stdout=subprocess.PIPE,
+                           stderr=subprocess.PIPE, text=True, timeout=timeout, env=env)
+    except Exception as exc:  # noqa
+        return None, repr(exc)[:300]
+    line = [x for x in p.stdout.split('\n') if x.startswith('RESULT ')]
+    if p.returncode or not line:
+        return None, (p.stderr or p.stdout)[-600:]
+    return json.loads(line[-1][7:]), None
+
+
+def np_flag_stream(ctx):
+    "NumPy flag-setting operations (np_* sites of the table) on whole / fractional / mixed arrays, incl. shifts by arrays."
+    l, f = 32, 16
+    U = 2 ** f
+    job = {'kind': 'c03', 'seed': ctx.seed, 'items': [{'cfg': [1, 0, False, l, f]}, {'cfg': [3, 1, False, l, f]}]}
+    res, prob = run_np_job(job)
+    if res is None:
+        ctx.broken.append({'kind': 'run', 'what': 'NumPy flag stream did not run', 'detail': prob})
+        return
+    n = 0
+    for item in res:
+        cfg = item['cfg']
+        parties = item['parties']
+        if any(not isinstance(x, list) for x in parties):
+            ctx.broken.append({'kind': 'run', 'what': 'NumPy flag program did not complete', 'cfg': cfg, 'res': str(parties)[:300]})
+            continue
+        if any(x != parties[0] for x in parties[1:]):
+            ctx.violation('parties-disagree stream=np-flags', {'cfg': cfg})
+        for (op, flag, vals, prods, expect) in parties[0]:
+            n += 1
+            ctx.case({'np': op, 'cfg': cfg}, nontrivial=True, kind='np ' + op.split(' ')[0])
+            detail = {'cfg': cfg, 'type': [l, f], 'op': op, 'flag': flag, 'values_scaled': vals, 'times_(0.5+2^-f)_scaled': prods,
+                      'expected_scaled': expect}
+            if flag == 'EXC':
+                ctx.violation('exception op=np %s' % op.split(' ')[0], detail)
+                continue
+            key = op.split(' ')[0]
+            if flag and any(v % U for v in vals):
+                ctx.violation('flag-wrong op=%s kind=flag' % key, detail)
+            elif expect is not None and [abs(a - b) < (U if key in ('mul', 'matmul', 'outer') else 1) for a, b in zip(vals, expect)].count(False):
+                ctx.violation('flag-wrong op=%s kind=value' % key, detail)
+            elif any(abs(pv * U - v * (U // 2 + 1)) >= U for v, pv in zip(vals, prods)):
+                ctx.violation('flag-wrong op=%s kind=product' % key, detail)
+    ctx.extra['np_flag_records'] = n
+    ctx.log('%d NumPy flag records (m=1, m=3)' % n)
+
+
+def random_bits_stream(ctx, Sim):
+    "random_bits(secfxp, n, signed): exactly 0/1 resp. +-1 as fixed-point numbers, marked integral, usable in products."
+    for (m, t, noprss) in [(1, 0, False), (1, 0, True), (3, 1, False), (3, 1, True)]:
+        for (l, f) in [(32, 16), (16, 8)]:
+            U = 2 ** f
+            out = {}
+
+            async def prog(mpc, mods, pid, l=l, f=f, out=out):
+                secfxp = mpc.SecFxp(l, f)
+                half = mpc.input(secfxp(secfxp.field(U // 2 + 1), integral=False), senders=0)
+                res = {}
+                for signed in (False, True):
+                    bits = mpc.random_bits(secfxp, 6, signed=signed) + [mpc.random_bit(secfxp, signed=signed)]
+                    flags = [bool(b.integral) for b in bits]
+                    vals = [int(v) for v in await mpc.output(bits, raw=True)]
+                    prods = [int(v) for v in await mpc.output([b * half for b in bits], raw=True)]
+                    res[str(signed)] = [flags, vals, prods]
+                if pid == 0:
+                    out.update(res)
+                return res
+            sim = Sim(m=m, t=t, no_prss=noprss, seed=ctx.seed + 21)
+            try:
+                sim.start()
+                r = run_limited(sim, prog, 120, idle_limit=3000, spins=(100 if m == 1 else 1))
+            finally:
+                quiet_close(sim)
+            if r is None or any(not isinstance(x, dict) for x in r):
+                ctx.broken.append({'kind': 'run', 'what': 'random_bits program did not complete', 'cfg': [m, t, noprss], 'res': str(r)[:200]})
+                continue
+            for signed, (flags, vals, prods) in out.items():
+                allowed = (-U, U) if signed == 'True' else (0, U)
+                ctx.case({'random_bits': signed, 'cfg': [m, t, noprss], 't': [l, f]}, nontrivial=True, kind='random_bits signed=' + signed)
+                bad = [i for i, (fl, v, pv) in enumerate(zip(flags, vals, prods))
+                       if v not in allowed or (fl and v % U) or abs(pv * U - v * (U // 2 + 1)) >= U]
+                if bad:
+                    ctx.violation('flag-wrong op=random_bits signed=%s' % signed,
+                                  {'cfg': [m, t, noprss], 'type': [l, f], 'signed': signed, 'flags': flags, 'values_scaled': vals,
+                                   'allowed_scaled': list(allowed), 'times_(0.5+2^-f)_scaled': prods, 'wrong_positions': bad})
+
+
 def field_modulus(Sim, seed):
     out = {}
 
@@ -1227,6 +1488,8 @@ def run(ctx):
     ctx.log('%d operation records from %d programs' % (len(records), len(plan)))
     layout_stream(ctx, Sim, records)
     constructor_stream(ctx, Sim)
+    random_bits_stream(ctx, Sim)
+    np_flag_stream(ctx)
     exprs, meta = [], []
     nbad = 0
     for rec in records:
